@@ -11,9 +11,9 @@ Local Open Scope N_scope.
    CloseChannelEnd{claimed = true} is answered and msg_close_channel_end_reply removes an entry
    that was never inserted: debug_assert!(contained.is_some()) fires inside Client::run. *)
 Theorem C06_channel_ends_refuted :
-  exists sched, run {| fl_refused_closed := false; fl_close_asserts := true |} (created 7 1 CSender []) sched
+  exists sched, run {| fl_refused_closed := false; fl_close_asserts := true; fl_cancel := false |} (created 7 1 CSender []) sched
                 = CPanic 1 S_CLOSE_ABSENT.
-Proof. exact (ex_intro _ w_refused_claim refused_claim_panics). Qed.
+Proof. exact (ex_intro _ w_refused_claim refused_claim_awaited_panics). Qed.
 Print Assumptions C06_channel_ends_refuted.
 
 (* the same statement for whichever shape tools/rs2v.py reads from unclaimed.rs / client.rs *)
@@ -24,14 +24,14 @@ Print Assumptions C06_channel_ends_this_tree.
 (* known findings that the repaired error path does not cure: a claim future dropped while its
    request is in flight, and a second bind of an end the client already holds *)
 Theorem C06_cancelled_claim_refuted :
-  exists sched, run {| fl_refused_closed := true; fl_close_asserts := true |} (created 7 1 CSender []) sched
+  exists sched, run {| fl_refused_closed := true; fl_close_asserts := true; fl_cancel := true |} (created 7 1 CSender []) sched
                 = CPanic 1 S_CLOSE_ABSENT.
-Proof. exact (ex_intro _ w_cancelled_claim (cancelled_claim_panics {| fl_refused_closed := true; fl_close_asserts := true |} eq_refl)). Qed.
+Proof. exact (ex_intro _ w_cancelled_claim (cancelled_claim_panics {| fl_refused_closed := true; fl_close_asserts := true; fl_cancel := true |} eq_refl eq_refl)). Qed.
 Print Assumptions C06_cancelled_claim_refuted.
 
 Theorem C06_double_bind_refuted :
-  forall fl, exists sched, run fl (created 7 1 CSender []) sched = CPanic 1 S_SEND_ITEM_ABSENT.
-Proof. exact (fun fl => ex_intro _ w_double_bind (double_bind_panics fl)). Qed.
+  forall fl, fl_cancel fl = true -> exists sched, run fl (created 7 1 CSender []) sched = CPanic 1 S_SEND_ITEM_ABSENT.
+Proof. exact (fun fl H => ex_intro _ w_double_bind (double_bind_panics fl H)). Qed.
 Print Assumptions C06_double_bind_refuted.
 
 (* ---- bus listeners: whatever the application does with a listener (start, stop, destroy, any
